@@ -189,6 +189,29 @@ def run_config(chk, facts):
                        key=f"{b.path}|fate|{t.callee}|{sorted(fate)}", file=b.file, line=t.line, fn=b.path,
                        detail=f"result of {t.callee} is {sorted(fate)}; expected only propagated/returned")
     chk.floor("C18-c", "decode/applier call sites", n, 9)
+    # ---- C18-d -------------------------------------------------------------------------------
+    chk.rule("C18-d", "T-GUARD: a decode call that passes a shared dictionary (the existing table) is dominated by the "
+                      "`replacement == false` edge; a REPLACE_TABLE entry is decoded without a dictionary")
+    tp = chk.anchor("C18-d", TK_TABLE, facts.body(TK_TABLE))
+    rep = [i for i in range(1, tp.argc + 1) if tp.local_name(i) == "replacement" and tp.local_ty(i) == "bool"]
+    chk.anchor("C18-d", "bool parameter `replacement` of apply_table_patch", rep)
+    nd = 0
+    for bb, t in tp.calls():
+        if t.callee != DECODE:
+            continue
+        nd += 1
+        e = expr_of(tp, t.args[2])
+        is_none = e[0] == "agg" and e[1][0] == "adt" and e[1][1] == "core::option::Option" and e[1][3] == "None"
+        if is_none:
+            chk.ob("C18-d", f"decode at line {t.line}: dictionary = None", True)
+            continue
+        guarded = any(g.cond == ("param", rep[0]) and g.taken_val == 0 for g in branch_guards(tp, bb))
+        chk.ob("C18-d", f"decode at line {t.line}: dictionary = {show(tp, e)[:60]} only when !replacement", guarded,
+               key=f"{tp.path}|dict-guard", file=tp.file, line=t.line, fn=tp.path,
+               detail="a decode call receives the existing table as shared dictionary on a path where `replacement` may be "
+                      "true: a REPLACE_TABLE patch would be decoded as a diff against the old table")
+    chk.floor("C18-d", "decode calls in apply_table_patch", nd, 1)
+
     # From<DecodeError>: arm count recorded (exhaustiveness is compiler checked)
     fd = facts.find_bodies(r"PatchingError as core::convert::From<shared_brotli_patch_decoder::decode_error::DecodeError>>::from$", IFT)
     if fd:
